@@ -90,7 +90,8 @@ Definition mg_body (rec : Z -> shape -> Z -> option (list ev))
   if level =? bottom c then Some [ECoarse level s (c_lr_of c s)]
   else
     let csc := c_sc_of c s in
-    match rec (level + 1) (halve s csc) (cycmax - cy) with
+    let ho := mg_handover level cycmax cy in   (* (level+1, cycmax-cyc), from the source *)
+    match rec (fst ho) (halve s csc) (snd ho) with
     | None => None
     | Some sub =>
         Some (pre_ev c level s ++ [ERestrict level csc] ++ sub
@@ -107,9 +108,20 @@ Fixpoint mg_call (fuel : nat) (c : cfg) (level : Z) (s : shape) (new_cycmax : Z)
       opt_concat (map (fun cy => mg_body (mg_call f c) c level s cycmax cy) (zrange cycmax))
   end.
 
-(* One fine-grid cycle (one pass of the while loop at level 0; cyc stays 0). *)
-Definition fine_cycle (fuel : nat) (c : cfg) : option (list ev) :=
-  let cycmax := mg_cycmax 0 0 (bottom c) (cyc c) (cycmax_of_cycle (cyc c)) in
+(* One fine-grid cycle (one pass of the while loop at level 0; cyc stays 0).
+   [c1] is the configuration of the FIRST cycle: the level-0 cycmax is computed
+   before the loop from the initial sc_dir; only if the source re-computes it
+   inside the loop (flag extracted from solver.py) does the current cycle's
+   configuration count. *)
+Definition fine_cycle_from (c1 : cfg) (fuel : nat) (c : cfg) : option (list ev) :=
+  let c0 := if level0_cycmax_recomputed then c else c1 in
+  let cycmax := mg_cycmax 0 0 (bottom c0) (cyc c0) (cycmax_of_cycle (cyc c0)) in
+  mg_body (mg_call fuel c) c 0 (shape0 c) cycmax 0.
+Definition fine_cycle (fuel : nat) (c : cfg) : option (list ev) := fine_cycle_from c fuel c.
+(* the variant with the level-0 cycmax always taken from the first cycle (what
+   solver.py did before it re-computed it inside the loop) *)
+Definition fine_cycle_stale (c1 : cfg) (fuel : nat) (c : cfg) : option (list ev) :=
+  let cycmax := mg_cycmax 0 0 (bottom c1) (cyc c1) (cycmax_of_cycle (cyc c1)) in
   mg_body (mg_call fuel c) c 0 (shape0 c) cycmax 0.
 
 Definition fuel_for (c : cfg) : nat := S (Z.to_nat (bottom c)).
@@ -140,7 +152,8 @@ Definition cfg_at (c : cfg) (pat_sc pat_lr : list Z) (k : Z) : cfg :=
      pre_on := pre_on c; post_on := post_on c; shape0 := shape0 c |}.
 Definition outer_cycles (c : cfg) (pat_sc pat_lr : list Z) (n : Z)
   : list (option (list ev)) :=
-  map (fun k => let ck := cfg_at c pat_sc pat_lr k in fine_cycle (fuel_for ck) ck) (zrange n).
+  map (fun k => let ck := cfg_at c pat_sc pat_lr k in
+              fine_cycle_from (cfg_at c pat_sc pat_lr 0) (fuel_for ck) ck) (zrange n).
 
 (* --- smoother dispatch --------------------------------------------------- *)
 (* does the smoother selected for shape s relax lines along direction d ? *)
